@@ -14,6 +14,7 @@ Reading of the statement that the theorems formalise
   * "the exiting thread has finished" for `p` = no thread has an activation of `p`'s hook list
     with hooks still to run (`¬ pending s p`).
 -/
+import Uniflow.Generated.Locks
 import Uniflow.Proofs.Process
 
 namespace Uniflow.Process
@@ -207,3 +208,15 @@ theorem C04.join_after_children_partial (s : State) (t p : Nat) :
   split
   · simp [contStep, hpc, hw]
   · rfl
+
+/-! ## Step granularity tied to the source
+
+The small-step machine takes every method of `process.Process` as ONE critical section (one
+atomic step under `p.mu`). `Generated/Locks.lean` is regenerated from process.go on every run:
+every method that locks `p.mu` does so at exactly one site. -/
+open Uniflow.Generated.Locks in
+theorem C04.atomic_sections :
+    (acquireSites.filter (fun a => a.1 == "process.Process")).all (fun a => a.2.2.2 == 1) = true ∧
+    acquireSites.contains ("process.Process", "AddExitHook", "mu", 1) = true ∧
+    acquireSites.contains ("process.Process", "Exit", "mu", 1) = true := by
+  decide
